@@ -13,7 +13,7 @@ func show(ops []bop) {
 }
 
 func TestSeqs(t *testing.T) {
-	show([]bop{{oEnter, 0, cCPU}, {oNew, 0, kUR}, {oEnter, 0, cCPU}, {oLeave, 0, lLoop}})
+	show([]bop{{oEnter, 0, cCPU}, {oNew, 0, kT}, {oNew, 1, kTkill}, {oEnter, 0, cSoft}, {oDrop, 0, 0}, {oDrop, 1, 0}, {oFire, 0, 0}, {oFire, 1, 0}, {oStep, 0, 0}, {oLeave, 0, lRet}, {oLeave, 0, lRet}})
 }
 
 func TestGenCount(t *testing.T) {
